@@ -7,7 +7,7 @@ for porcupine v1.3.0 and gofail v0.2.0 (sums computed from the module cache)."""
 import base64, hashlib, os, re, sys
 
 REPO = os.environ.get("VERIF_REPO", "/repo")
-OUT = os.path.dirname(os.path.dirname(os.path.abspath(__file__)))
+OUT = os.environ.get("VERIF_MOD_OUT") or os.path.dirname(os.path.dirname(os.path.abspath(__file__)))
 MODCACHE = os.environ.get("GOMODCACHE", "/root/go/pkg/mod")
 EXTRA = [("github.com/anishathalye/porcupine", "v1.3.0"), ("go.etcd.io/gofail", "v0.2.0")]
 
@@ -17,6 +17,7 @@ def h1_gomod(path):
     return "h1:" + base64.b64encode(hashlib.sha256(line.encode()).digest()).decode()
 
 def main():
+    os.makedirs(OUT, exist_ok=True)
     src = open(os.path.join(REPO, "go.mod")).read()
     src = re.sub(r"^module .*$", "module verif", src, count=1, flags=re.M)
     # drop the tool directive: the harness has no use for it
